@@ -88,9 +88,16 @@ func numBuiltins() int { return len(tengo.GetAllBuiltinFunctions()) }
 // height with the verifier's prediction at every dispatched instruction.
 func runProbed(c compiled, rep *bcv.Report) (mismatch string, runErr error, pan interface{}, steps int) {
 	byCode := map[uintptr]*bcv.FuncReport{}
+	// copy() of a function value makes a new function object with a copy of
+	// the instruction bytes: such a function is recognised by content
+	byBytes := map[string]*bcv.FuncReport{}
 	for _, f := range rep.Funcs {
 		if len(f.Fn.Instructions) > 0 {
 			byCode[uintptr(unsafe.Pointer(&f.Fn.Instructions[0]))] = f
+			k := fmt.Sprintf("%d/%d/%v/%s", f.Fn.NumLocals, f.Fn.NumParameters, f.Fn.VarArgs, f.Fn.Instructions)
+			if byBytes[k] == nil {
+				byBytes[k] = f
+			}
 		}
 	}
 	vm := tengo.NewVM(c.bc, c.globals, -1)
@@ -108,6 +115,12 @@ func runProbed(c compiled, rep *bcv.Report) (mismatch string, runErr error, pan 
 			return
 		}
 		fr := byCode[uintptr(unsafe.Pointer(&fn.Instructions[0]))]
+		if fr == nil {
+			fr = byBytes[fmt.Sprintf("%d/%d/%v/%s", fn.NumLocals, fn.NumParameters, fn.VarArgs, fn.Instructions)]
+			if fr != nil {
+				byCode[uintptr(unsafe.Pointer(&fn.Instructions[0]))] = fr
+			}
+		}
 		if fr == nil {
 			mismatch = fmt.Sprintf("VM executes a function (ip %d) that is neither main nor a function constant", ip)
 			return
